@@ -3,14 +3,22 @@
 #ifndef WV_C_FILE_H
 #define WV_C_FILE_H
 #define WV_FILE_OK(f) ((f)->open && (f)->pos <= (f)->len && (f)->len < (1ull << 58))
+/* POSIX allows a position beyond the end of the file (after fseek); a read there returns nothing */
+#define WV_FILE_OPEN(f) ((f)->open && (f)->pos < (1ull << 58) && (f)->len < (1ull << 58))
+#define WV_AVAIL_OLD(f) (__CPROVER_old((f)->pos) <= __CPROVER_old((f)->len) ? __CPROVER_old((f)->len) - __CPROVER_old((f)->pos) : 0)
 
-/* fread(p, 1, n, f): reads min(n, len - pos) bytes, advances the position, sets the EOF indicator only on a short read */
+/* fread(p, 1, n, f): reads min(n, bytes available) bytes, advances the position, sets the EOF indicator only on a short read.
+   Content: the byte at the observed absolute offset wv_rP, and every byte of a read of at most 8 bytes, is the file's byte. */
+#define WV_RD8(k) (((k) < n && n <= 8 && (k) < __CPROVER_return_value) ==> ((const unsigned char *)p)[k] == wv_filebyte(f->id, __CPROVER_old(f->pos) + (k)))
 size_t wv_fread(void *p, size_t sz, size_t n, wv_FILE *f)
-__CPROVER_requires(sz == 1 && __CPROVER_is_fresh(f, sizeof(*f)) && WV_FILE_OK(f) && __CPROVER_is_fresh(p, n))
+__CPROVER_requires(sz == 1 && __CPROVER_is_fresh(f, sizeof(*f)) && WV_FILE_OPEN(f) && __CPROVER_is_fresh(p, n))
 __CPROVER_assigns(f->pos, f->eof, __CPROVER_object_upto(p, n))
-__CPROVER_ensures(__CPROVER_return_value == (n <= __CPROVER_old(f->len) - __CPROVER_old(f->pos) ? n : __CPROVER_old(f->len) - __CPROVER_old(f->pos)))
+__CPROVER_ensures(__CPROVER_return_value == (n <= WV_AVAIL_OLD(f) ? n : WV_AVAIL_OLD(f)))
 __CPROVER_ensures(f->pos == __CPROVER_old(f->pos) + __CPROVER_return_value)
-__CPROVER_ensures(f->eof == (__CPROVER_old(f->eof) || __CPROVER_return_value < n));
+__CPROVER_ensures(f->eof == (__CPROVER_old(f->eof) || __CPROVER_return_value < n))
+__CPROVER_ensures((__CPROVER_old(f->pos) <= wv_rP && wv_rP < __CPROVER_old(f->pos) + __CPROVER_return_value) ==>
+                  ((const unsigned char *)p)[wv_rP - __CPROVER_old(f->pos)] == wv_filebyte(f->id, wv_rP))
+__CPROVER_ensures(WV_RD8(0) && WV_RD8(1) && WV_RD8(2) && WV_RD8(3) && WV_RD8(4) && WV_RD8(5) && WV_RD8(6) && WV_RD8(7));
 
 int wv_feof(wv_FILE *f)
 __CPROVER_requires(__CPROVER_is_fresh(f, sizeof(*f)) && WV_FILE_OK(f))
@@ -33,7 +41,7 @@ __CPROVER_ensures(__CPROVER_return_value == c && f->pos == __CPROVER_old(f->pos)
 /* fseek(f, off, SEEK_SET): sets the position (seeking beyond the end is allowed by POSIX; the repository never relies on it
    here, so the contract requires off <= len where a later read assumes pos <= len), clears the EOF indicator */
 int wv_fseek(wv_FILE *f, long off, int whence)
-__CPROVER_requires(__CPROVER_is_fresh(f, sizeof(*f)) && f->open && whence == SEEK_SET && off >= 0)
+__CPROVER_requires(__CPROVER_is_fresh(f, sizeof(*f)) && f->open && whence == SEEK_SET && off >= 0 && off < (1l << 57))
 __CPROVER_assigns(f->pos, f->eof)
 __CPROVER_ensures(__CPROVER_return_value == 0 && f->pos == (wv_u64)off && !f->eof);
 
@@ -43,7 +51,7 @@ __CPROVER_ensures(__CPROVER_return_value == 0 && f->pos == (wv_u64)off && !f->eo
 size_t wv_fwrite(const void *p, size_t sz, size_t n, wv_FILE *f)
 __CPROVER_requires(sz == 1 && __CPROVER_is_fresh(f, sizeof(*f)) && f->open && f->len < (1ull << 60) && f->pos < (1ull << 60) && n < (1ull << 40) && __CPROVER_is_fresh(p, n))
 __CPROVER_assigns(*f, wv_w)
-__CPROVER_ensures(f->open && f->id == __CPROVER_old(f->id) && f->eof == __CPROVER_old(f->eof) && f->tag_dirty == __CPROVER_old(f->tag_dirty))
+__CPROVER_ensures(f->open && f->id == __CPROVER_old(f->id) && f->eof == __CPROVER_old(f->eof))
 __CPROVER_ensures(__CPROVER_return_value == n && f->pos == __CPROVER_old(f->pos) + n)
 __CPROVER_ensures(f->len == (__CPROVER_old(f->pos) + n > __CPROVER_old(f->len) ? __CPROVER_old(f->pos) + n : __CPROVER_old(f->len)))
 __CPROVER_ensures(f->nwrites == __CPROVER_old(f->nwrites) + 1 && f->nbytes == __CPROVER_old(f->nbytes) + n)
@@ -56,4 +64,9 @@ int wv_fclose(wv_FILE *f)
 __CPROVER_requires(__CPROVER_is_fresh(f, sizeof(*f)) && f->open)
 __CPROVER_assigns(f->open)
 __CPROVER_ensures(!f->open);
+/* strlen on the seed string: the harness-chosen length wv_slen is the position of its first NUL (assumed contract) */
+size_t wv_strlen(const char *s)
+__CPROVER_requires(wv_slen < (1ull << 31) && __CPROVER_is_fresh(s, wv_slen + 1) && s[wv_slen] == 0)
+__CPROVER_assigns()
+__CPROVER_ensures(__CPROVER_return_value == wv_slen);
 #endif
